@@ -119,10 +119,16 @@ def c02(tier, seed):
         # delete every simplex
         for t in (rng.sample(sorted(names), 3) if thin else sorted(names)):
             yield dict(lines=base + ['!snap c0', 'del c0 ' + t, '!post-del c0 ' + t, 'obs c0'], pool=pool, tag='C02 delete %s' % t)
+            yield dict(lines=base + ['!snap c0', 'delitem c0 ' + t, '!post-del c0 ' + t, 'obs c0', '!inv c0'], pool=pool, tag='C02 del c[%s]' % t)
         # restrict to every subset of the points
         subs = [list(q) for r in range(0, len(pts) + 1) for q in itertools.combinations(pts, r)]
         for q in (rng.sample(subs, 3) if thin else subs):
             yield dict(lines=base + ['!snap c0', 'restrict c0 ' + Lst(q), '!post-restrict c0 ' + Lst(q), 'obs c0'], pool=pool, tag='C02 restrict')
+            if q and len(q) < len(pts):
+                # the same set of points written with repeats (as many entries as the complex has points, and more)
+                qq = [q[j % len(q)] for j in range(len(pts) + (i % 2))]
+                rng.shuffle(qq)
+                yield dict(lines=base + ['!snap c0', 'restrict c0 ' + Lst(qq), '!post-restrict c0 ' + Lst(qq), 'obs c0'], pool=pool, tag='C02 restrict, points repeated')
         # subdivide every simplex of order > 0 (the basis enumeration is read from the interpreter)
         hi = [t for t, s in sorted(names.items()) if len(s) > 1]
         for t in (rng.sample(hi, min(2, len(hi))) if thin else hi):
@@ -633,6 +639,16 @@ class _asLive:
 def c07(tier, seed):
     yield from _c06(tier, seed, z=True, pid='C07')
     yield dict(lines=['kskel c0 new 16', '!betti c0', '!snf c0', '!zbasis c0'], pool='int', tag='C07 complete graph on 17 points (nullity 120)')
+    # a filtration is a complex too: wherever its index stands, its normal forms and cycle bases are those of the
+    # boundary operators it reports
+    rng = random.Random(seed + 5)
+    for j in range(60 if tier == 'quick' else 600):
+        g = FiltGen(seed * 1409 + j, POOL_NAMES[j % len(POOL_NAMES)])
+        g.run(rng.randrange(6, 20))
+        for i in rng.sample(IDX, 2):
+            g.do('setidx f %d' % i); g.do('!snf f')
+        g.do('maxidx f'); g.do('!snf f'); g.do('!zbasis f')
+        yield g.case('C07 filtration seed=%d' % (seed * 1409 + j))
     # boundary operators of rank >= 128 (where an 8-bit counter would wrap): long cycles, alone and with a chord
     for n in ((130,) if tier == 'quick' else (129, 130, 140, 200)):
         lines = ['ring c0 new %d' % n, 'q c0 Z [1]', '!zbasis c0', '!snf c0', '!betti c0', '!expect-betti c0 0:1,1:1']
@@ -696,6 +712,8 @@ def c08(tier, seed):
         L.do('!same c0 c1')
         L.do('obs c0'); L.do('obs c1'); L.do('alias')
         L.do('!noshare c0 c1 ' + ' '.join('x%d' % k for k in range(6)))      # every constructed complex is a new object with its own dicts
+        L.do('!jsonset c0')
+        L.do('!noalias c0'); L.do('obs c0')          # what queries hand out is the caller's to change
         yield L.case()
     for j in range(300 if tier == 'quick' else 3000):
         g = FiltGen(seed * 977 + j, POOL_NAMES[j % len(POOL_NAMES)])
@@ -902,6 +920,15 @@ def c10(tier, seed):
                 s = sorted(rng.choice(hi))
                 other = [p for p in pts if p not in s][:1] + s[:1]
                 L.do('add c1 %s %s -' % (tokS(s), Lst(['u%d' % p for p in other])))
+        elif kind == 2 and (j // 6) % 2 and [t for t in names if B.orderOf(L.ex.objs['c1'], L.ex.name(t)) == 1] and len(pts_of(fam)) >= 3:
+            # after the comparisons above have read its faces: an edge is deleted and its name re-used on other points
+            c1 = L.ex.objs['c1']
+            t = rng.choice([t for t in names if B.orderOf(c1, L.ex.name(t)) == 1])
+            old = {L.ex.T(x) for x in B.basisOf(c1, L.ex.name(t))}
+            L.do('del c1 ' + t)
+            cand = [q for q in itertools.combinations(L.toks('c1', 0), 2) if set(q) != old and B.simplexWithBasis(c1, [L.ex.name(x) for x in q]) is None]
+            if cand:
+                L.do('add c1 %s %s -' % (t, Lst(rng.choice(cand))))
         elif kind == 2:
             L.do('add c1 u950 [] -')                      # a lone extra point
         elif names and kind == 3:
@@ -1057,6 +1084,9 @@ def vr_cases(rng, n, dims=(1, 2, 3)):
         L = Live(POOL_NAMES[j % len(POOL_NAMES)], 'VR %s dim=%d eps=%r pts=%r' % (kind, dim, eps, pts), vr_eps=eps)
         L.do('new c0')
         withattrs = (j % 3 == 0)
+        early = (j % 5 == 1)
+        if early:
+            L.do('emb e c0 %d' % dim)       # the embedding is made first, of a complex that is still empty
         for p in range(npts):
             if withattrs:
                 L.do('dict DP%d {1:%d}' % (p, p)); L.do('add c0 u%d [] DP%d' % (p, p))
@@ -1064,7 +1094,8 @@ def vr_cases(rng, n, dims=(1, 2, 3)):
                 L.do('add c0 u%d [] -' % p)
         if npts >= 2 and rng.random() < 0.3:
             L.do('addb c0 - [u0,u1] -')      # edges of the embedded complex do not matter
-        L.do('emb e c0 %d' % dim)
+        if not early:
+            L.do('emb e c0 %d' % dim)
         for p in range(npts):
             L.do('pos e u%d %s' % (p, Lst([str(x) for x in pts[p]])))
         e = L.ex.embs['e']
@@ -1259,7 +1290,7 @@ def c14(tier, seed):
         g.do('add f u700 [] -'); g.do('add f u701 [] -'); g.do('addb f u702 [u700,u701] -')
         for n in born + ['u700', 'u701']:
             g.do('del f ' + n)
-        g.do('q f indices'); g.do('q f getidx')
+        g.do('q f indices'); g.do('q f getidx'); g.do('q f count'); g.do('q f counts'); g.do('q f simplices'); g.do('!filt f')
         g.do('setidx f %d' % i)                       # the same value again: it is an index again
         g.do('q f indices'); g.do('!filt f'); g.do('!nav f')
         for op in rng.sample(['next f', 'prev f', 'minidx f', 'maxidx f', 'next f', 'prev f'], 4):
@@ -1356,6 +1387,7 @@ def c15(tier, seed):
                 yield L.case()
     # names that print alike (0 and '0', 1 and 1.0-as-string ...): outside the model's assumption that generated
     # names are injective in the old name, so judged on the implementation alone
+    yield dict(lines=['!addfrom-fn-large 150'], pool='int', tag='C15 bulk add of several hundred simplices under a renaming function')
     for j in range(60 if tier == 'quick' else 600):
         yield dict(lines=['!disjoint-twin %d' % (seed * 131 + j)], pool='int', tag='C15 relabelDisjointFrom with names that print alike %d' % j)
     # known finding: chains and swaps (injective, avoiding the names that stay) are rejected
@@ -1445,7 +1477,7 @@ def c17(tier, seed):
             names = L.toks('c0')
             if names:
                 L.do('relabel c0 {%s:u%d}' % (rng.choice(names), 980))
-        L.do('!snap c0'); L.do('json c0 c1'); L.do('!lastok JSON_round_trip'); L.do('!samecontent c0 c1'); L.do('!jsontext c0'); L.do('!same c0')
+        L.do('!snap c0'); L.do('json c0 c1'); L.do('!lastok JSON_round_trip'); L.do('!samecontent c0 c1'); L.do('!jsontext c0'); L.do('!jsonset c0'); L.do('!same c0')
         L.do('obs c1'); L.do('q c0 eq c1'); L.do('json c1 c2'); L.do('obs c2')
         yield L.case()
     for j in range(200 if tier == 'quick' else 2000):
@@ -1453,6 +1485,12 @@ def c17(tier, seed):
         g.run(rng.randrange(4, 14))
         g.do('setidx f %d' % rng.choice(IDX))
         g.do('json f c1'); g.do('!lastok JSON_round_trip'); g.do('!samecontent f c1'); g.do('!jsontext f'); g.do('obs c1')
+        if j % 4 == 0:
+            # every simplex deleted again (no index is left): the empty complex
+            for t in g.alltoks():
+                if t in g.alltoks():
+                    g.do('del f ' + t)
+            g.do('json f c2'); g.do('!lastok JSON_round_trip_of_an_emptied_filtration'); g.do('!samecontent f c2'); g.do('!jsontext f'); g.do('obs c2')
         yield g.case('C17 filtration encodes the complex at its index seed=%d' % (seed * 4241 + j))
     yield dict(lines=['!json-known'], pool='str', tag='C17 KNOWN marker inside attribute value')
 
@@ -1546,6 +1584,11 @@ def c19(tier, seed):
         for p in range(n):
             if rng.random() < 0.7 and 'u%d' % p in L.toks('c0'):
                 L.do('dset c0 u%d 7 %d' % (p, rng.randrange(0, 6)))
+        if j % 3 == 0:
+            # the same attribute on edges and triangles: the metric is one on points, so they play no part
+            for t in L.toks('c0'):
+                if B.orderOf(L.ex.objs['c0'], L.ex.name(t)) > 0 and rng.random() < 0.6:
+                    L.do('dset c0 %s 7 %d' % (t, rng.randrange(0, 4)))
         L.do('!integrate c0 7 %d' % dflt); L.do('q c0 integrate 7 %d' % dflt)
         # additive over disjoint unions
         L.do('copy c0 c1')
